@@ -10,7 +10,11 @@ if TYPE_CHECKING:  # pragma: no cover
 def prepare_text_for_dbml(text: str) -> str:
     '''Escape backslashes and single quotes (for a triple-quoted literal)'''
     pattern = re.compile(r"('''|')")
-    return pattern.sub(r'\\\1', text.replace('\\', '\\\\'))
+    result = pattern.sub(r'\\\1', text.replace('\\', '\\\\'))
+    if result.endswith("\\'''"):
+        # the two bare quotes would merge with the closing delimiter
+        result = result[:-4] + "\\'\\'\\'"
+    return result
 
 
 def prepare_line_for_dbml(text: str) -> str:
